@@ -319,3 +319,36 @@ add({"name": "MmbFile_ctor", "file": "dfs/img_mmb.cc",
                (r"(for \(unsigned sec = 0; sec < mmb_sectors; \+\+sec\))", r"\1 MMB_OUTER_LOOP_CONTRACT", 1),
                (r"(for \(unsigned i = 0; i < entries_per_sector; \+\+i\))", r"\1 MMB_INNER_LOOP_CONTRACT", 1)],
      "dropped": ["slot description strings", "warning text for unknown status bytes"]})
+
+# ---- img_sdf.cc / geometry.cc (C04): the view parameters the sector-dump containers pass to FileView ---------
+add({"name": "Geometry_total_sectors", "file": "dfs/geometry.cc", "anchor": r"DFS::sector_count_type Geometry::total_sectors\(\) const",
+     "sig": "static sector_count_type Geometry_total_sectors(const struct Geometry *self)",
+     "pre": "#define cylinders (self->cylinders)\n#define heads (self->heads)\n#define sectors (self->sectors)\n",
+     "post": "#undef cylinders\n#undef heads\n#undef sectors\n",
+     "rules": [(r"DFS::sector_count\(", "sector_count(", 1)]})
+GEO_MAKE = (r"const DFS::Geometry single_side_geom = DFS::Geometry\(geometry\.cylinders,\s*1,\s*geometry\.sectors,\s*geometry\.encoding\);",
+            "const struct Geometry single_side_geom = { geometry.cylinders, 1, geometry.sectors };  /* encoding dropped */")
+add({"name": "noninterleaved_views", "file": "dfs/img_sdf.cc",
+     "anchor": r"DFS::sector_count_type skip = 0;",
+     "region_end": r"\}\s*\};\s*class InterleavedFile",
+     "sig": "static void noninterleaved_views(const struct Geometry geometry)",
+     "rules": [(r"DFS::sector_count_type", "sector_count_type", 2), GEO_MAKE + (1,),
+               (r"single_side_geom\.total_sectors\(\)", "Geometry_total_sectors(&single_side_geom)", 1),
+               (r"std::ostringstream os;.*?std::string desc = os\.str\(\);", "/* description text dropped */", 1),
+               (r"FileView v\(block_access\(\), name, desc, single_side_geom,\s*skip, side_len, 0, side_len\);", "view_add(skip, side_len, 0, side_len);", 1),
+               (r"DFS::sector_count\(", "sector_count(", 1),
+               (r"add_view\(v\);", "/* add_view(v): recorded by view_add */", 1),
+               (r"(for \(int surface_num = 0; surface_num < geometry\.heads; \+\+surface_num\))", r"\1 SIDES_LOOP_CONTRACT", 1)],
+     "dropped": ["view description strings", "Geometry::encoding"]})
+add({"name": "interleaved_views", "file": "dfs/img_sdf.cc",
+     "anchor": r"const DFS::Geometry single_side_geom = DFS::Geometry\(geometry\.cylinders,\s*1,\s*geometry\.sectors,\s*geometry\.encoding\);\s*const DFS::sector_count_type track_len",
+     "region_end": r"\}\s*\};\s*\}  // namespace",
+     "sig": "static void interleaved_views(const struct Geometry geometry)",
+     "rules": [GEO_MAKE + (1,), (r"DFS::sector_count_type", "sector_count_type", 1),
+               (r"single_side_geom\.sectors", "single_side_geom.sectors", 1),
+               (r"FileView side0\(block_access\(\), name, make_desc\(0\),\s*single_side_geom,\s*0,\s*track_len,\s*track_len,\s*single_side_geom\.total_sectors\(\)\);",
+                "view_add(0, track_len, track_len, Geometry_total_sectors(&single_side_geom));", 1),
+               (r"FileView side1\(block_access\(\), name, make_desc\(1\),\s*single_side_geom,\s*track_len,\s*track_len,\s*track_len,\s*single_side_geom\.total_sectors\(\)\);",
+                "view_add(track_len, track_len, track_len, Geometry_total_sectors(&single_side_geom));", 1),
+               (r"add_view\(side[01]\);", "/* add_view: recorded by view_add */", 2)],
+     "dropped": ["view description lambda", "Geometry::encoding"]})
